@@ -1,6 +1,6 @@
 /-
-C15 — the regenerated body of `focusHandler.handleEvent`, EXECUTED, is the model's three-phase
-dispatch, returned error included.
+C15 — the regenerated bodies of `focusHandler.handleEvent` and `mouseHandler.handleEvent`, EXECUTED, are
+the model's three-phase dispatch, returned error included.
 
 `Gen/VxfwBodies.lean` (regenerated from /repo/vxfw/vxfw.go on every run by `extract/cmd/C15/skel.go`)
 holds the bodies of the dispatchers as syntax.  `Model/VxfwInterp.lean` interprets the body of
@@ -15,6 +15,7 @@ of `Props/C15.lean` (stated for `handleEvent`) hold of the interpreted body.
 -/
 import VaxisModel.Gen.VxfwBodies
 import VaxisModel.Lemmas.VxfwBody
+import VaxisModel.Lemmas.VxfwBodyMouse
 import VaxisModel.Props.C15
 import VaxisModel.Props.C15Err
 
@@ -58,6 +59,42 @@ theorem key_routing_body (o : Oracle) (fuel : Nat) (s : St) (ev : Ev) (hev : Rou
   obtain ⟨t, ht, hc⟩ := C15.key_routing o fuel s ev hev
   refine ⟨handleEvent o fuel s ev, t, ?_, ht, hc⟩
   rw [handle_event_body_eq_model (e0 o) fuel s ev _ (Nat.le_refl _), (C15Err.no_error_agrees_handlers o fuel s).2.1 ev]
+
+/-- The regenerated body of `mouseHandler.handleEvent` is the one the execution lemmas are about. -/
+theorem mouse_body_as_expected : Gen.VxfwBodies.mouseHandleEvent = Lemmas.VxfwBodyExpected.mouseHandleEvent := by decide +kernel
+
+/-- **`mouseHandler.handleEvent`, executed from its regenerated body, IS `eMouseHandleEvent`**: `m.mouse = &mouse`,
+    `err := m.update(app, m.lastFrame)` (the model's hit-list update with its enter/leave notifications)
+    with `return err`, `return nil` when nothing is under the pointer, then the capture loop over
+    `m.lastHits` (type assertion on `h.w`), the target call on the LAST hit `m.lastHits[len-1].w`, and the
+    index loop over `m.lastHits[i].w` from the second-last hit down — `m.lastHits` is read live in the
+    target and bubble phases (the dispatch never changes it: `eOffer_hits`) — with every
+    `if err != nil { return err }` and consume test.  New state and returned error, for every oracle,
+    failing-call set, nesting budget, state and pointer position. -/
+theorem mouse_handle_event_body_eq_model (e : EOracle) (fuel : Nat) (s : St) (col row : Int) (lf : Nat)
+    (hlf : (eMouseUpdate e fuel { s with mouse := some (col, row) } s.lastFrame).1.lastHits.length + 1 ≤ lf) :
+    runMouseHandleEvent (parseBody Gen.VxfwBodies.mouseHandleEvent) e fuel s col row lf =
+      some (eMouseHandleEvent e fuel s col row) := by
+  rw [mouse_body_as_expected, Lemmas.VxfwBody.parse_mhe]
+  exact Lemmas.VxfwBody.mhe_exec e fuel s col row lf hlf
+
+/-- **Mouse routing of the interpreted body**: with handlers that do not fail, the executed body of
+    `mouseHandler.handleEvent` ends in the state of the model's `mouseHandleEvent` and returns nil — so
+    `mouse_routing` (hit list = the widgets under the pointer, then capture → target = deepest hit → bubble
+    along the hit list, stop on consume) holds of the body that was executed. -/
+theorem mouse_routing_body (o : Oracle) (fuel : Nat) (s : St) (col row : Int) :
+    let s1 := mouseUpdate o fuel { s with mouse := some (col, row) } s.lastFrame
+    ∃ s' t, runMouseHandleEvent (parseBody Gen.VxfwBodies.mouseHandleEvent) (e0 o) fuel s col row
+        ((eMouseUpdate (e0 o) fuel { s with mouse := some (col, row) } s.lastFrame).1.lastHits.length + 1) = some (s', false) ∧
+      s'.trace = s1.trace ++ t ∧
+      (match s1.lastHits.getLast? with
+       | none => t = []
+       | some tg => conforms (.mouse col row) s1.focused (planOf o.captures (s1.lastHits.map (·.w)) (.tgt tg.w)) t = true) := by
+  intro s1
+  obtain ⟨_, t, ht, hc⟩ := C15.mouse_routing o fuel s col row
+  refine ⟨mouseHandleEvent o fuel s col row, t, ?_, ht, hc⟩
+  rw [mouse_handle_event_body_eq_model (e0 o) fuel s col row _ (Nat.le_refl _),
+    (C15Err.no_error_agrees_handlers o fuel s).2.2 col row]
 
 /-- Non-vacuity: widgets 0 and 1 capture, 2 consumes in the bubble phase, 3 is focused; the run of the
     regenerated body calls 0c 1c 3t 2b and returns nil; with a failing target call it stops there and
